@@ -741,3 +741,44 @@ def spec_c20(tier, seed):
                    'rsocket.rx_support.rx_handler_adapter.RxHandlerAdapter.request_channel', 'rsocket.rx_support.rx_handler_adapter.RxHandlerAdapter.on_metadata_push'],
         stubs=['S1', 'S2', 'S3', 'S6', 'S7 SimTransport', 'S8 recording observers/delegates', 'reactivex and Rx executed under the tracer'],
     )
+
+
+def spec_c01(tier, seed):
+    q = tier == 'quick'
+    pairs = [[a, b] for a in range(5) for b in range(a, 5)]
+    parts = []
+    for pi, kinds in enumerate(pairs):
+        if q:
+            l1, mode = (pi + seed) % 4, (pi // 2 + seed) % 4
+            for pace in (False, True):
+                parts.append({'kinds': kinds, 'l1': l1 if not pace else (l1 + 2) % 4, 'mode': mode if not pace else (mode + 2) % 4,
+                              'l2': (pi + 1) % 4, 'pace': pace})
+        else:
+            for l1 in range(4):
+                for mode in range(4):
+                    parts.append({'kinds': kinds, 'l1': l1, 'mode': mode, 'l2': (l1 + mode + 1) % 4})
+                    if kinds[0] != kinds[1]:
+                        parts.append({'kinds': kinds[::-1], 'l1': l1, 'mode': mode, 'l2': (l1 + mode + 2) % 4})
+    return dict(
+        conds=[Cond('c01_e2e', 'c_end_to_end', parts=parts, timeout=900)],
+        explanation='a real RSocketClient and a real RSocketServer on one virtual loop joined by a simulated link: TCP framing '
+                    'over the real TransportTCP / StreamReader / FrameParser with re-chunked delivery (whole, or the first '
+                    'deliveries of one direction cut to 1 and 70 bytes so reads split length prefixes, headers and fragments), '
+                    'or message framing through the real AbstractMessagingTransport glue; two concurrent interactions out of '
+                    '{request-response, fire-and-forget, stream, channel, metadata-push} started by either side, payloads of four '
+                    'length classes (1..3+ fragments at size 64) with a distinct byte pattern each, fragmentation on/off, '
+                    'responder publishers in a burst or one element per millisecond. Oracle: every payload handed in arrives '
+                    'at the matching handler/subscriber exactly once, byte for byte, in order, nowhere else; each caller gets '
+                    'its own response; nothing left open.',
+        bounds=['all %d unordered pairs of interaction models (thorough: both orders); who initiates each (symbolic), fragmentation (symbolic), pacing (symbolic)' % len(pairs),
+                'length class of the first payload and link mode: %s; <= 2 elements per stream direction' % ('2 combinations per pair (rotating with the seed), one per pacing' if q else 'all 16 combinations per pair'),
+                '%d partitions; on these paths every value is concrete once the selectors are branched on: the engine is an exhaustive enumerator of the bounded configuration space, the symbolic-data content of C01 sits in the lemmas it composes (C02, C03, C04, C05)' % len(parts)],
+        outside=['more than two concurrent interactions, joint chunking of both directions, longer streams, other fragment sizes'],
+        functions=['rsocket.rsocket_base.RSocketBase._sender', 'rsocket.rsocket_base.RSocketBase._receiver_listen', 'rsocket.rsocket_base.RSocketBase._handle_next_frame',
+                   'rsocket.rsocket_base.RSocketBase.request_response', 'rsocket.rsocket_base.RSocketBase.request_stream', 'rsocket.rsocket_base.RSocketBase.request_channel',
+                   'rsocket.rsocket_base.RSocketBase.fire_and_forget', 'rsocket.rsocket_base.RSocketBase.metadata_push', 'rsocket.rsocket_base.RSocketBase.register_new_stream',
+                   'rsocket.stream_control.StreamControl.handle_stream', 'rsocket.frame.FrameFragmentMixin.get_next_fragment', 'rsocket.frame_fragment_cache.FrameFragmentCache.append',
+                   'rsocket.frame_parser.FrameParser.receive_data', 'rsocket.transports.tcp.TransportTCP.send_frame', 'rsocket.transports.tcp.TransportTCP.next_frame_generator',
+                   'rsocket.transports.abstract_messaging.AbstractMessagingTransport.next_frame_generator', 'rsocket.streams.stream_from_generator.StreamFromGenerator.feed_subscriber'],
+        stubs=['S1', 'S2', 'S3', 'S4', 'S6', 'SimLink: real TransportTCP over Pipe (StreamReader + recording writer) / SimMessageTransport', 'S8 echo handlers'],
+    )
